@@ -298,11 +298,26 @@ func genProduce(prop string, seed uint64) *Plan {
 		nops = int(g.rng(15, 60))
 		faultsN = int(g.rng(0, 3))
 		if g.pct(35) {
+			// long topic names and several topics per request: the size
+			// accounting of a request (names below v13, ids from v13 on)
+			// against BrokerMaxWriteBytes
+			k["topic_pad"] = g.pick(20, 60, 200)
+			k["ntopics"] = g.rng(2, 4)
+			ntopics = k["ntopics"]
+			k["linger_ms"] = g.pick(50, 200, 1000)
+			if k["max_write_bytes"] < k["batch_max_bytes"]+300+k["topic_pad"] {
+				k["max_write_bytes"] = k["batch_max_bytes"] + 512 + k["topic_pad"]
+			}
+		}
+		if g.pct(30) {
+			// a cluster of an older release
+			k["produce_cap_all"] = g.pick(7, 9, 10, 11, 12, 12, 12)
+		} else if g.pct(50) {
 			// a rolling upgrade: brokers negotiate different produce
 			// versions (zstd needs v7), batches are re-sent to another
 			// broker after leader moves
 			k["mixed_versions"] = 1
-			k["old_produce_ver"] = g.pick(3, 5, 6, 6, 8)
+			k["old_produce_ver"] = g.pick(3, 5, 6, 6, 8, 12)
 			k["old_produce_ver2"] = g.pick(3, 4, 7)
 			if nb < 2 {
 				nb = g.rng(2, 5)
